@@ -514,6 +514,10 @@ class C18Session(Session):
                         ff.keywords["params"]["amp"] = float(op.get("value", 2))
                         ff.keywords["params"]["hist"].append(op.get("value", 2))
                         self.probe("stateful_field_func_mutated")
+                elif kind == "mesh_method":
+                    if type(obj).__name__ == "TriangularMesh":
+                        getattr(obj, op.get("method", "check_open"))()
+                        self.probe("mesh_method_called")
                 elif kind == "user_attr":
                     # user state hung on the object (mutable): copies must get their own
                     if not hasattr(obj, "userdata"):
@@ -659,7 +663,7 @@ class Sim:
             "fail_variants": rng.random() < 0.7,
             "mutations": [m for m in ["path", "set_attr", "style_update", "style_update_dict", "style_assign_dict",
                                       "style_attr", "add_trace", "trace_edit", "inplace_getter", "tree_add",
-                                      "tree_remove", "children_styles", "user_attr", "field_func_state"] if rng.random() < 0.7] or ["path"],
+                                      "tree_remove", "children_styles", "user_attr", "field_func_state", "mesh_method"] if rng.random() < 0.7] or ["path"],
         }
 
     def new_world_spec(self, rng, cfg):
@@ -790,6 +794,12 @@ class Sim:
         obj = w.objs[o]
         cls = type(obj).__name__
         kind = rng.choice(cfg["mutations"])
+        if kind == "mesh_method":
+            ms = [i for i in range(n) if type(w.objs[i]).__name__ == "TriangularMesh"]
+            if ms:
+                o = rng.choice(ms)
+                obj = w.objs[o]
+                cls = type(obj).__name__
         if kind == "field_func_state":
             cs = [i for i in range(n) if isinstance(getattr(w.objs[i], "_field_func", None), functools.partial)]
             if cs:
@@ -832,6 +842,9 @@ class Sim:
             op["which"] = rng.randrange(4)
         elif kind == "field_func_state":
             op["value"] = rng.choice([2, 3, 5, -1])
+        elif kind == "mesh_method":
+            op["method"] = rng.choice(["check_open", "check_disconnected", "check_selfintersecting", "reorient_faces",
+                                       "get_open_edges", "get_faces_subsets", "get_selfintersecting_faces"])
         return op
 
     def gen_op(self, rng, cfg, sess):
